@@ -29,6 +29,7 @@ def nodeName? : String → Option String
   | "dh_b" => some (repo ++ "/internal/math.MakeGAB")
   | "srp_a" => some (repo ++ "/telegram.GetInputCheckPassword")
   | "wire_nonce" => some "secret:nonce"
+  | "wire_new_nonce" => some "secret:new_nonce"
   | "wire_dh_b" => some "secret:dh_b"
   | "new_client" => some (repo ++ ".NewMTProto")
   | _ => none
@@ -106,7 +107,28 @@ def scriptOk (s : String) : Bool :=
   let ps := s.splitOn ","
   ps.length ≤ 8 && ps.all fun p => p == "ok" || p == "retry" || p == "fail"
 
+def faultModeOk (m : String) : Bool := ["err", "once", "eof", "part", "trickle", "none"].contains m
+
+/-- all of the given nodes are sound in the regenerated graph -/
+def verdictAll (keys : List String) (yes no : String) : String :=
+  if !M.ok then "extractor-failed" else
+  match keys.mapM node? with
+  | some xs => if xs.all good then yes else no
+  | none => "unknown-node"
+
 def handle : List String → String
+  -- the OS source fails / runs short at its k-th Read: the graph has no values and no failures — a secret whose every
+  -- path ends in the OS source (no other generator, no clock) has nothing to be made of when the source does not
+  -- deliver ("sound" is also the line the Go side prints when every secret that was emitted is backed by, and a
+  -- function of, the bytes the source delivered — however the client ended)
+  | ["c19.fault", wh, k, mode, seed] =>
+    match k.toNat?, seed.toNat? with
+    | some kn, some _ =>
+      if !(faultModeOk mode) || kn > 64 || toString kn != k || ((mode == "none") != (kn == 0)) then "bad-op"
+      else if wh == "kx" then verdictAll ["wire_nonce", "wire_new_nonce", "wire_dh_b"] "sound" "unbacked"
+      else if isFn wh then verdict wh "sound" "unbacked"
+      else "bad-op"
+    | _, _ => "bad-op"
   -- the secret drawn WITH values the peer chose: the graph has no values — a generator whose every path ends in the OS
   -- source reads the full width whatever its other arguments are ("full" is also the line the Go side prints when
   -- the draws are full-width, distinct, and every byte read enters the secret)
